@@ -1,6 +1,6 @@
 (* C12 — property theorems: explicit limits decide exactly; oversize archive members; size arithmetic
    of ODS repeat expansion.  Statements + exact + Print Assumptions only. *)
-From S2T Require Import C12.Model C12.Proofs.
+From S2T Require Import C12.Model C12.Proofs C12.Xlsx.
 Open Scope Z_scope.
 
 (* read_file refuses exactly the files larger than a positive max_file_size; 0 (or less) disables *)
@@ -104,3 +104,35 @@ Example C12_hypotheses_satisfiable :
   /\ raw_cells [(2, [(3, false); (1, true)]); (1, [(2, false)])] = 10.
 Proof. vm_compute. repeat split; reflexivity. Qed.
 Print Assumptions C12_hypotheses_satisfiable.
+
+(* XLSX: the aligned text block of a sheet has max_row x max_col fields, whatever the number of cells *)
+Theorem C12_xlsx_text_is_full_grid :
+  forall cs : list xcell, valid cs = true -> text_fields cs = max_row cs * max_col cs.
+Proof. exact text_fields_grid. Qed.
+Print Assumptions C12_xlsx_text_is_full_grid.
+
+(* full statement (output within a fixed multiple K of the input, here: of the number of cells) is FALSE:
+   two cells suffice, far apart by rows ... *)
+Theorem C12_xlsx_output_linear_refuted :
+  forall K : Z, exists cs, valid cs = true /\ length cs = 2%nat /\ text_fields cs > K * 2.
+Proof. exact text_fields_unbounded. Qed.
+Print Assumptions C12_xlsx_output_linear_refuted.
+
+(* ... or by columns *)
+Theorem C12_xlsx_output_linear_refuted_columns :
+  forall K : Z, exists cs, valid cs = true /\ length cs = 2%nat /\ text_fields cs > K * 2.
+Proof. exact text_fields_unbounded_columns. Qed.
+Print Assumptions C12_xlsx_output_linear_refuted_columns.
+
+(* what does hold: a dense sheet (cells fill 1..n x 1..m) has exactly one field per cell *)
+Theorem C12_xlsx_dense_sheet_linear_partial :
+  forall n m : nat, (1 <= n)%nat -> (1 <= m)%nat ->
+    text_fields (rectangle n m) = Z.of_nat (length (rectangle n m)).
+Proof. exact dense_sheet_linear. Qed.
+Print Assumptions C12_xlsx_dense_sheet_linear_partial.
+
+Example C12_xlsx_nonvacuous :
+  valid [(1, 1); (300000, 1)] = true /\ text_fields [(1, 3); (2, 1); (4, 2)] = 12
+  /\ widths [(1, 3); (2, 1); (4, 2)] = [3; 1; 0; 2].
+Proof. vm_compute. repeat split; reflexivity. Qed.
+Print Assumptions C12_xlsx_nonvacuous.
